@@ -56,6 +56,48 @@ pub fn run(env: &Env, run: &Run) -> (Stats, Coverage) {
         v
     };
     st.merge(run_family(&fam, |s, st| visit(env, s, st)));
+    // conformance for every length: the Nickname space rule is a sequential (Mealy) function
+    // f(w.a) = f(w).out(state, a) with three states; its complete W-method suite (prefix-closed,
+    // so that per-character outputs are observed) is run with m extra states allowed
+    let wm = {
+        use crate::wmethod::Mealy;
+        let syms: Vec<char> = sigma.clone();
+        let is_sp: Vec<bool> = syms.iter().map(|c| is_zs(&env.ud16, *c)).collect();
+        let k = syms.len();
+        // states: 0 nothing emitted yet, 1 last emitted a non-space, 2 a space is pending
+        let mut trans = vec![vec![0usize; k]; 3];
+        let mut out = vec![vec![String::new(); k]; 3];
+        for st_ in 0..3 {
+            for a in 0..k {
+                if is_sp[a] {
+                    trans[st_][a] = if st_ == 0 { 0 } else { 2 };
+                } else {
+                    trans[st_][a] = 1;
+                    out[st_][a] = if st_ == 2 { format!(" {}", syms[a]) } else { syms[a].to_string() };
+                }
+            }
+        }
+        let spec = Mealy { nsym: k, trans, out };
+        let m = run.tier.pick(4, 6);
+        match spec.wmethod_suite(m) {
+            Err(e) => {
+                st.caps_hit.push(format!("MACHINERY: {}", e));
+                json!(null)
+            }
+            Ok(suite) => {
+                let strs: Vec<String> = suite.iter().map(|w| w.iter().map(|a| syms[*a]).collect()).collect();
+                let expected: Vec<String> = suite.iter().map(|w| spec.run(w)).collect();
+                let idx: std::collections::HashMap<&str, usize> = strs.iter().enumerate().map(|(i, s)| (s.as_str(), i)).collect();
+                st.merge(run_family(&strs, |s, st| {
+                    let exp = &expected[idx[s]];
+                    check_rule_fn(Prof::Nick, RuleFn::Additional, s, exp, false, st);
+                }));
+                json!({"specification": "3-state Mealy machine of the RFC 8266 space rule over the alphabet's space / non-space symbols", "states": 3, "extra_states_allowed": m, "tests": suite.len(),
+                    "longest_test": suite.iter().map(|w| w.len()).max().unwrap_or(0),
+                    "claim": format!("if all tests pass, Nickname's additional mapping equals the specification on strings of EVERY length over these symbols, provided it is a sequential function with at most {} states", 3 + m)})
+            }
+        }
+    };
     let zs: Vec<String> = (0..0x110000u32).filter_map(char::from_u32).filter(|c| is_zs(&env.ud16, *c)).map(|c| format!("U+{:04X}", c as u32)).collect();
     st.sample(json!({"rule": "Nickname additional mapping", "input": ["U+00E9", " ", " ", "b", "U+3000"], "expected": "U+00E9 ' ' b"}));
     st.sample(json!({"rule": "OpaqueString additional mapping", "input": [" ", "U+00A0", "a", " "], "expected": "' ' ' ' a ' ' (only the non-ASCII space is replaced; nothing is trimmed)"}));
@@ -65,7 +107,7 @@ pub fn run(env: &Env, run: &Run) -> (Stats, Coverage) {
         bound_completed: format!("length <= {} ({} strings) x 2 rules; sweep 1,112,064 x 7 templates x 2", n, tree_size(sigma.len(), n)),
         exhaustive: false,
         assumptions: vec!["pinned UnicodeData 16.0.0 is authentic".into()],
-        extra: json!({"zs_code_points": zs}),
+        extra: json!({"zs_code_points": zs, "wmethod": wm}),
     };
     (st, cov)
 }
